@@ -621,10 +621,59 @@ func (x *ctx) tableModel(st *state, fr *frame, op string, callee *ssa.Function, 
 		return res
 	case "Range":
 		// iterator-call rule: zero or more calls of f on entries that were in the table at some instant during the call
+		// invariants of the repeated invocation (`loop <closure>:0: invariant ...` in the contract under verification)
+		var rinv []*Clause
+		if x.spec == 0 && x.con != nil && args[1].fn != nil {
+			if ls := x.con.ClosureLoops[args[1].fn.Name()+":0"]; ls != nil {
+				rinv = ls.Invariants
+				if x.siteHit == nil {
+					x.siteHit = map[string]bool{}
+				}
+				x.siteHit["range:"+args[1].fn.Name()] = true
+			}
+		}
+		evalRI := func(s *state, cl *Clause) string {
+			penv := func(n string, t types.Type) (val, bool) { v, ok := x.params[n]; return v, ok }
+			lenv := func(n string, t types.Type) (val, bool) {
+				for i := len(x.frames) - 1; i >= 0; i-- {
+					if v, ok := x.localAnywhere(s, x.frames[i], n); ok {
+						return v, true
+					}
+				}
+				if v, ok := x.localAnywhere(s, fr, n); ok {
+					return v, true
+				}
+				return penv(n, t)
+			}
+			pc := x.pre.clone()
+			np := len(pc.pc)
+			l1 := x.clauseL1(pc, x.con, cl, penv)
+			for id, v := range pc.cells {
+				if _, ok := s.cells[id]; !ok {
+					s.cells[id] = v
+				}
+			}
+			for _, f := range pc.pc[np:] {
+				if f.def {
+					s.define(f.t)
+				}
+			}
+			return x.applyClosure(s, l1, cl.P3, lenv).t.s
+		}
+		rsite := "range"
+		if args[1].fn != nil {
+			rsite = "range " + args[1].fn.Name()
+		}
+		for _, cl := range rinv {
+			x.oblige(st, "inv-entry", cl.Tag(), rsite, evalRI(st, cl), "")
+		}
 		skip := st.clone()
 		skip.sig = append(skip.sig, "range:0")
 		x.havocClosureEffects(st, fr, args[1])
 		x.interfere(st)
+		for _, cl := range rinv {
+			st.assume(evalRI(st, cl))
+		}
 		n := x.freshTerm("ranged", sRef)
 		st.define(not(eq(n, null)))
 		if x.mode != "itf" {
@@ -641,8 +690,14 @@ func (x *ctx) tableModel(st *state, fr *frame, op string, callee *ssa.Function, 
 				res = append(res, o)
 				continue
 			}
+			for _, cl := range rinv {
+				x.oblige(o.st, "inv-preserved", cl.Tag(), rsite, evalRI(o.st, cl), "")
+			}
 			x.havocClosureEffects(o.st, fr, args[1])
 			x.interfere(o.st)
+			for _, cl := range rinv {
+				o.st.assume(evalRI(o.st, cl))
+			}
 			res = append(res, outcome{st: o.st})
 		}
 		return res
@@ -658,7 +713,7 @@ func (x *ctx) havocClosureEffects(st *state, fr *frame, fv val) {
 	if fv.fn == nil {
 		return
 	}
-	ms := &modSet{keys: map[string]bool{}, cells: map[int]bool{}}
+	ms := &modSet{st: st, keys: map[string]bool{}, cells: map[int]bool{}}
 	nfr := &frame{fn: fv.fn, regs: map[ssa.Value]val{}}
 	for i, f := range fv.fn.FreeVars {
 		if i < len(fv.bind) {
